@@ -458,7 +458,7 @@ class Interp(ExprMixin, CallMixin):
                     len(t.args) == 2 and isinstance(t.args[0], ast.Attribute):
                 tv = self.eval(t.args[1], fr)
                 cur = self.eval(t.args[0], fr)
-                if isinstance(tv, ClassV) and isinstance(tv.cls, ClassInfo) and isinstance(cur, SelfV) and cur.typ is None:
+                if isinstance(tv, ClassV) and isinstance(tv.cls, ClassInfo) and isinstance(cur, SelfV) and not isinstance(cur.typ, ClassInfo):
                     ref = dict(fr.env.get('__refined__', {}))
                     ref[cur.path] = tv.cls
                     fr.env['__refined__'] = ref
